@@ -186,6 +186,11 @@ class RootVisitor(NodeVisitor):
     visit_ScopedEvalContextModifier = _simple_visit
 
     def visit_AssignBlock(self, node: nodes.AssignBlock, **kwargs: t.Any) -> None:
+        # The filter of a block assignment is compiled in the block's frame,
+        # so names used only in its arguments must be known to that frame.
+        if node.filter is not None:
+            self.sym_visitor.visit(node.filter)
+
         for child in node.body:
             self.sym_visitor.visit(child)
 
